@@ -4,7 +4,9 @@ From stdpp Require Import gmap.
 From Coq Require Import ZArith.
 From V Require Import Base.Res Sched.LedgerModel Sched.StmtModel Sched.GangModel Sched.CycleModel Sched.LedgerInvP
                       Sched.GangLemmas Sched.GangLemmasInv Sched.GangLemmasStmt Sched.GangLemmasCycle Sched.GangLemmasMain
-                      Sched.CycleCodec Sched.GangValid Sched.SubGroupModel Sched.SubGroupLemmas Sched.GangLemmasEvict.
+                      Sched.CycleCodec Sched.GangValid Sched.SubGroupModel Sched.SubGroupLemmas Sched.GangLemmasEvict
+                      Sched.GangLemmasShape Sched.GangLemmasAudit Sched.SubGroupLaw Sched.LedgerCodec Sched.DumpCodec Sched.GangLawSound.
+From V Require Sched.CycleLaws.
 Open Scope Z_scope.
 
 (* 1. the counts the gang plugin reads from TaskStatusIndex are the counts over the task list *)
@@ -158,8 +160,118 @@ Print Assumptions C01_ex_sg_pipelined.
 (* 7. a history over the Statement / Session operations WITHOUT Statement.Allocate, Session.Allocate and
    RecoverOperations (what preempt and reclaim are made of: Pipeline, Evict, Merge, Commit, Discard),
    started with no Allocate operation in any statement, adds nothing to the bind log *)
-Theorem C01_evict_ops_no_bind eps ops s :
-  Forall evict_alphabet ops -> no_alloc_ops s ->
-  binds (StmtModel.run eps s ops) = binds s /\ no_alloc_ops (StmtModel.run eps s ops).
-Proof. exact (evict_ops_no_bind eps ops s). Qed.
+Theorem C01_evict_ops_no_bind eps (SS : positive -> Prop) ops s :
+  Forall (evict_alphabet SS) ops -> no_alloc_ops SS s ->
+  binds (StmtModel.run eps s ops) = binds s /\ no_alloc_ops SS (StmtModel.run eps s ops).
+Proof. exact (evict_ops_no_bind eps SS ops s). Qed.
 Print Assumptions C01_evict_ops_no_bind.
+
+(* ---------- audit round ---------- *)
+
+(* 8. (audit W1) the gang theorem WITHOUT a hypothesis on intermediate states, for every choice list of
+   the one-allocate shape: no job is attempted again after an attempt that was not committed
+   (allocate.go 305-356 re-pushes a job only after Commit), backfill placements anywhere.  Covers
+   the action lists in which allocate occurs at most once. *)
+Theorem C01_kept_free_guarded eps ops w K :
+  winv w -> kinv (w_sess w) K -> kept_free eps w K ops -> guarded eps w ops.
+Proof. exact (kept_free_guarded eps ops w K). Qed.
+Print Assumptions C01_kept_free_guarded.
+
+Theorem C01_gang_ok_one_allocate eps w ops :
+  ledger_inv (w_sess w) -> heap_members (w_sess w) ->
+  refuse_bind (w_sess w) = ∅ -> stmts (w_sess w) = ∅ -> no_tentative (w_sess w) ->
+  kept_free eps w ∅ ops ->
+  binds_ok (w_sess w) (w_sess (CycleModel.run eps w ops)).
+Proof. exact (gang_ok_one_allocate eps w ops). Qed.
+Print Assumptions C01_gang_ok_one_allocate.
+
+(* purely syntactic hypothesis: every job attempted at most once *)
+Theorem C01_gang_ok_attempt_once eps w ops :
+  ledger_inv (w_sess w) -> heap_members (w_sess w) ->
+  refuse_bind (w_sess w) = ∅ -> stmts (w_sess w) = ∅ -> no_tentative (w_sess w) ->
+  NoDup (attempt_jobs ops) -> static_non_be (w_sess w) ops ->
+  binds_ok (w_sess w) (w_sess (CycleModel.run eps w ops)).
+Proof. exact (gang_ok_attempt_once eps w ops). Qed.
+Print Assumptions C01_gang_ok_attempt_once.
+
+Theorem C01_kept_freeb_sound eps ops w K : kept_freeb eps w K ops = true -> kept_free eps w K ops.
+Proof. exact (kept_freeb_sound eps ops w K). Qed.
+Print Assumptions C01_kept_freeb_sound.
+
+(* 9. (audit W7) at bind time: the binds a step sends are complete gangs in the session right after it *)
+Theorem C01_bind_time_gang_ok eps w ops1 o ops2 :
+  gang_inv (w_sess w) -> refuse_bind (w_sess w) = ∅ -> stmts (w_sess w) = ∅ ->
+  guarded eps w (ops1 ++ o :: ops2) ->
+  let w1 := CycleModel.run eps w ops1 in
+  let w2 := (CycleModel.step eps w1 o).1 in
+  exists nb, binds (w_sess w2) = nb ++ binds (w_sess w1) /\ forall b, b ∈ nb -> bound_ok (w_sess w2) b.1.
+Proof. exact (bind_time_gang_ok eps w ops1 o ops2). Qed.
+Print Assumptions C01_bind_time_gang_ok.
+
+(* 10. (audit W3) allocate / backfill choices followed, in the same session, by any preempt / reclaim
+   history on fresh statements: no further bind, even with kept statements left by allocate *)
+Theorem C01_alloc_then_evict_no_new_bind eps w cops eops :
+  gang_inv (w_sess w) -> refuse_bind (w_sess w) = ∅ -> stmts (w_sess w) = ∅ ->
+  guarded eps w cops ->
+  let w' := CycleModel.run eps w cops in
+  Forall (evict_alphabet (fresh_ids w')) eops ->
+  binds (StmtModel.run eps (w_sess w') eops) = binds (w_sess w') /\
+  binds_ok (w_sess w) (w_sess w').
+Proof. exact (alloc_then_evict_no_new_bind eps w cops eops). Qed.
+Print Assumptions C01_alloc_then_evict_no_new_bind.
+
+(* 11. (audit W4) consecutive cycles as a history: every cycle a choice list of the one-allocate shape,
+   started from the session fed back by the previous one; every bind of every cycle is a complete gang *)
+Theorem C01_cycles_gang_ok eps cs w :
+  gang_inv (w_sess w) -> refuse_bind (w_sess w) = ∅ -> stmts (w_sess w) = ∅ -> no_tentative (w_sess w) ->
+  cycles_shape eps w cs -> cycles_binds_ok eps w cs.
+Proof. exact (cycles_gang_ok eps cs w). Qed.
+Print Assumptions C01_cycles_gang_ok.
+
+Theorem C01_next_sess_gang_inv s : gang_inv s -> gang_inv (next_sess s).
+Proof. exact (next_sess_gang_inv s). Qed.
+Print Assumptions C01_next_sess_gang_inv.
+
+(* 12. (audit W5) the bind-fault boundary: with a refused AddBindTask the theorem is false *)
+Theorem C01_bind_fault_refuted :
+  exists eps w ops,
+    gang_inv (w_sess w) /\ stmts (w_sess w) = ∅ /\ no_tentative (w_sess w) /\ kept_free eps w ∅ ops /\
+    refuse_bind (w_sess w) <> ∅ /\
+    let s' := w_sess (CycleModel.run eps w ops) in
+    exists b j, b ∈ binds s' /\ (exists t, heap s' !! b.1 = Some t /\ jobs s' !! t_job t = Some j) /\ ~ gang_ok (heap s') j.
+Proof. exact bind_fault_refuted. Qed.
+Print Assumptions C01_bind_fault_refuted.
+
+(* 13. (audit W6) what the executable laws mean *)
+Theorem C01_law_gang_sound c d bound : CycleLaws.law_gang c d bound = true ->
+  (forall j, In j (cc_jobs c) ->
+     (exists t, In t (CycleLaws.spec_tasks c) /\ t_job t = js_id j /\ t_id t ∈ bound) ->
+     js_min j <= CycleLaws.count_tasks (CycleLaws.visible_ready d) (job_spec_tasks c j) /\
+     (fold_left (fun acc kv => acc + snd kv) (js_role_min j) 0 <= js_min j ->
+      forall r m, In (r, m) (js_role_min j) ->
+        m <= CycleLaws.count_tasks (fun t => CycleLaws.visible_ready d t && bool_decide (t_role t = r)) (job_spec_tasks c j))) /\
+  (forall t, In t (CycleLaws.spec_tasks c) -> t_id t ∈ bound -> CycleLaws.final_status d t = Binding).
+Proof. exact (law_gang_sound c d bound). Qed.
+Print Assumptions C01_law_gang_sound.
+
+Theorem C01_law_gang_sub_sound jobs ts bound : law_gang_sub jobs ts bound = true ->
+  (forall j, In j jobs ->
+     let tj := job_tasks jobs ts j in
+     (exists t, In t tj /\ In (mt_id t) bound) ->
+     mj_min j <= mcount mvisible tj /\ role_clause_P j tj /\ sub_clause_P j tj) /\
+  (forall t, In t (map (norm_task jobs) ts) -> In (mt_id t) bound -> mt_final t = Binding).
+Proof. exact (law_gang_sub_sound jobs ts bound). Qed.
+Print Assumptions C01_law_gang_sub_sound.
+
+(* richer non-vacuity: two gangs, a commit followed by a re-attempt of the same job, a backfill of an
+   empty-request pod; the headline theorem instantiated through ledger_okb_sound_b *)
+Example C01_ex2_theorem_applies :
+  let c := ex2_case ex2_cops in
+  binds_ok (w_sess (world_of c)) (w_sess (CycleModel.run (cc_eps c) (world_of c) (cc_cops c))) /\
+  length (binds_of c) = 5%nat.
+Proof. exact ex2_theorem_applies. Qed.
+Print Assumptions C01_ex2_theorem_applies.
+
+Example C01_f10_not_kept_free : kept_freeb eps0 f10_world ∅ f10_cops = false.
+Proof. exact f10_not_kept_free. Qed.
+Print Assumptions C01_f10_not_kept_free.
